@@ -144,6 +144,27 @@ func Explore(P *Program, cfg *HarnessCfg, nWorkers int, solverKind string, timeo
 					defer solver2.Close()
 				}
 			}
+			// third stage for queries both give up on (the primary was capped at 8 s, the fallback
+			// may be the wrong tool for the query): the primary kind again, fresh, three times the budget
+			var solver3 *Solver
+			defer func() {
+				if solver3 != nil {
+					mu.Lock()
+					res.Fallbacks += solver3.Queries
+					res.UnknownN -= solver3.SatN + solver3.UnsatN
+					res.SatN += solver3.SatN
+					res.UnsatN += solver3.UnsatN
+					res.SolverTime += solver3.Time
+					mu.Unlock()
+					solver3.Close()
+				}
+			}()
+			s3 := func() *Solver {
+				if solver3 == nil && solver2 != nil {
+					solver3, _ = NewSolver(solverKind, 3*timeoutMs)
+				}
+				return solver3
+			}
 			for {
 				mu.Lock()
 				for len(work) == 0 && active > 0 && !stop {
@@ -166,7 +187,7 @@ func Explore(P *Program, cfg *HarnessCfg, nWorkers int, solverKind string, timeo
 					wantW = true
 				}
 				mu.Unlock()
-				pr := runOnePath(P, cfg, entry, solver, solver2, it.prefix, wantW)
+				pr := runOnePath(P, cfg, entry, solver, solver2, s3, it.prefix, wantW)
 
 				mu.Lock()
 				active--
@@ -300,9 +321,9 @@ type pathResult struct {
 	kfModels    map[string]map[string]interface{}
 }
 
-func runOnePath(P *Program, cfg *HarnessCfg, entry *ssa.Function, solver, solver2 *Solver, prefix []int, wantWitness bool) (pr pathResult) {
+func runOnePath(P *Program, cfg *HarnessCfg, entry *ssa.Function, solver, solver2 *Solver, solver3 func() *Solver, prefix []int, wantWitness bool) (pr pathResult) {
 	ex := &Exec{
-		P: P, ctx: NewCtx(), solver: solver, solver2: solver2, cfg: cfg, entry: entry, prefix: prefix,
+		P: P, ctx: NewCtx(), solver: solver, solver2: solver2, solver3: solver3, cfg: cfg, entry: entry, prefix: prefix,
 		globals: map[*ssa.Global]*Object{}, mutexes: map[string]*MutexState{},
 		tagCount: map[string]int{}, covers: map[string]bool{}, fnsSeen: map[*ssa.Function]int{},
 		pools: map[string][]Value{}, idxMemo: map[string]*Term{}, maxOf: map[*Object]int{},
